@@ -238,6 +238,16 @@ def judge(ctx, spec, positions=POSITIONS):
         ctx.violate_exc("point:invalid_position", "point:invalid_position_wrong_exception", e, spec={"kind": "point", "g": spec, "position": "middle"})
 
 
+def judge_with_siblings(ctx, spec):
+    """The case, then -- in the same process, straight afterwards -- every regrouping of its coordinate stream."""
+    judge(ctx, spec)
+    for sib in geoms.regroupings(spec):
+        ctx.mon("structural_siblings")
+        b = geoms.ref_bounds(sib)
+        ctx.case((sib["type"], "regrouped_sibling"), sib, nontrivial=(b[2] > b[0]))
+        judge(ctx, sib)
+
+
 def _degenerate(rng, typ):
     t = rng.choice([0.0, 1.5, 12.25]); f = rng.choice([0.0, 440.0, float(geoms.MAXF)])
     t2 = t + rng.choice([0.0, 2.0]); f2 = min(f + rng.choice([0.0, 1000.0]), float(geoms.MAXF))
@@ -279,7 +289,7 @@ def run(ctx):
             spec = _degenerate(rng, typ) if style == "degenerate" else geoms.random_geom(rng, typ, style)
             b = geoms.ref_bounds(spec)
             ctx.case((typ, style), spec, nontrivial=(b[2] > b[0] or (b[3] > b[1] and typ not in geoms.TIME_ONLY)))
-            judge(ctx, spec)
+            judge_with_siblings(ctx, spec)
     # reversed / unordered inputs are normalised before anything is computed
     for _ in range(ctx.scale(30, 200)):
         t0, t1, f0, f1 = geoms.random_box(rng, "realistic")
@@ -296,4 +306,8 @@ def replay(ctx, w):
     install()
     s = w["spec"]
     ctx.case("replay", s)
+    for other in geoms.regroupings(s["g"]):     # the witness may be the second of two related geometries
+        for sib in [other] + geoms.regroupings(other):
+            if sib != s["g"]:
+                judge(ctx, sib)
     judge(ctx, s["g"], positions=[s["position"]] if "position" in s and s["position"] in POSITIONS else POSITIONS)
